@@ -12,5 +12,6 @@ CONSTANTS
   ScsSids <- SidClasses
   ReaderScsAnySid = FALSE
   LazyFlushTypes = {}
+  NoSharedState = TRUE
 INVARIANTS NoDesync
 CHECK_DEADLOCK FALSE
